@@ -41,6 +41,7 @@ func explore(args []string) int {
 	repsAudit := fs.Int("reps-audit", 4, "executions of attestation transactions")
 	second := fs.Bool("second-app", false, "also execute every transaction in a second application instance (C07)")
 	roundTrips := fs.Int("roundtrips", 0, "states at which the genesis export/import round trip is recorded")
+	noiseF := fs.Bool("noise", false, "run unrelated transactions concurrently through the same application instance (C07)")
 	allPaths := fs.Bool("all-paths", false, "execute every input path completely")
 	maxHeight := fs.Int64("maxheight", 0, "skip NextBlock beyond this height (0 = no bound)")
 	if err := fs.Parse(args); err != nil {
@@ -78,7 +79,7 @@ func explore(args []string) int {
 		return 2
 	}
 	e, err := Explore(w, wr, Options{PathFile: *paths, Alphabet: al, Nodes: *nodes, Seed: *seed, Shard: *shard, Shards: *shards,
-		Reps: *reps, RepsAudit: *repsAudit, MaxHeight: *maxHeight, AllPaths: *allPaths, SecondApp: *second, RoundTrips: *roundTrips})
+		Reps: *reps, RepsAudit: *repsAudit, MaxHeight: *maxHeight, AllPaths: *allPaths, SecondApp: *second, RoundTrips: *roundTrips, Noise: *noiseF})
 	if cerr := wr.Close(); err == nil {
 		err = cerr
 	}
